@@ -31,6 +31,7 @@ type c15Case struct {
 	N     int           `json:"n,omitempty"`      // Delete: number of keys
 	Own   int           `json:"owners,omitempty"` // Delete: number of distinct owners
 	Miss  bool          `json:"some_missing,omitempty"`
+	Dup   bool          `json:"repeated_key,omitempty"` // Delete: the first key is named once more at the end
 	D     time.Duration `json:"d,omitempty"`
 }
 
@@ -43,6 +44,9 @@ func (c c15Case) ID() string {
 		s += fmt.Sprintf("x%d/owners=%d", c.N, c.Own)
 		if c.Miss {
 			s += "/some-missing"
+		}
+		if c.Dup {
+			s += "/first-key-named-twice"
 		}
 	}
 	if c.D != 0 && c.Op == "Expire" {
@@ -92,6 +96,10 @@ func c15Cases() []c15Case {
 			}
 			for _, miss := range []bool{false, true} {
 				cs = append(cs, c15Case{Op: "Delete", N: n, Own: own, Miss: miss, Prior: "present"})
+			}
+			if n >= 2 {
+				// the caller concatenated two key lists: a key named twice is counted like any named key
+				cs = append(cs, c15Case{Op: "Delete", N: n, Own: own, Dup: true, Prior: "present"})
 			}
 		}
 	}
@@ -486,6 +494,9 @@ func (e *c15Env) exec(c c15Case, kind string) (got c15Out, want c15Out, keys []s
 				return got, want, keys, fmt.Errorf("prior: %w", err)
 			}
 		}
+		if c.Dup {
+			ks = append(ks, ks[0])
+		}
 		n, err := cl.Delete(ctx, ks...)
 		got.Result = paths.Class(err)
 		got.Ret = fmt.Sprint(n)
@@ -498,7 +509,7 @@ func (e *c15Env) exec(c c15Case, kind string) (got c15Out, want c15Out, keys []s
 		got.Stored = fmt.Sprintf("left=%d", left)
 		// The count reported for keys owned by the serving member is the number of
 		// keys named (present or not); the statement requires the same count on every path.
-		want = c15Out{Result: "ok", Ret: fmt.Sprint(c.N), Stored: "left=0"}
+		want = c15Out{Result: "ok", Ret: fmt.Sprint(len(ks)), Stored: "left=0"}
 	default:
 		panic("op " + c.Op)
 	}
